@@ -645,6 +645,8 @@ def main():
     for k, t in enumerate(targets):
         rng = rng_for(chk.seed, "C13", t["func"], t["rel"])
         phases = std_phases if t["sampler"] == "std" else ins_phases
+        if t["func"] in ("an_draw", "rj_populate"):
+            phases = [1, 12, 30, 55]    # the uninformed proposals are only in use until the switch to the flow proposal (iteration 60 here)
         if chk.quick:
             # every line of the core replace step once, every 2nd-3rd line elsewhere, phase chosen by the seed
             if t["func"] not in core and t["sampler"] == "std" and k % 3:
@@ -685,6 +687,7 @@ def main():
     res = run_cases(cases, "checks.c13:inject", chk.scratch, nproc=chk.args.nproc, timeout=400)
     reached_lines = set()
     states = set()
+    per_func = {}
     kinds = {}
     for c, r in zip(cases, res):
         small = {k: c[k] for k in ("sampler", "func", "rel", "min_it", "kwargs", "signum", "stmt", "opcode") if k in c}
@@ -692,11 +695,14 @@ def main():
             chk.note_inconclusive(f"injection {c['func']}+{c['rel']}@{c['min_it']}: {str(r)[:300]}")
             chk.case_done()
             continue
+        per_func.setdefault((c["sampler"], c["func"]), [0, 0])
         if not r["fired"]:
             chk.count("injection_points_not_reached")
+            per_func[(c["sampler"], c["func"])][1] += 1
             chk.case_done()
             continue
         chk.count("injections_delivered")
+        per_func[(c["sampler"], c["func"])][0] += 1
         chk.count("injections_" + c["sampler"])
         reached_lines.add((c["func"], c["rel"] if c.get("opcode") is None else r.get("snap_line")))
         if c.get("opcode") is not None:
@@ -845,6 +851,11 @@ def main():
                              f"resume={r.get('resume')} final={r.get('final')}", small)
     chk.extra["asynchronous_signal_distinct_interrupted_stacks"] = sorted(str(x) for x in async_stacks)
     chk.extra["problem_kinds_by_mechanism"] = kinds
+    chk.extra["injections_delivered_and_not_reached_per_function"] = {f"{k[0]}:{k[1]}": v for k, v in sorted(per_func.items())}
+    never = sorted(f"{k[0]}:{k[1]}" for k, v in per_func.items() if v[0] == 0)
+    chk.extra["functions_in_which_no_injection_was_delivered"] = never
+    if never and not chk.args.only:
+        chk.note_inconclusive(f"no injection was delivered in {never}: that part of the sampling loop was not observed in this run")
     chk.extra["distinct_source_lines_interrupted"] = len(reached_lines)
     chk.extra["distinct_interruption_states"] = sorted(str(s) for s in states)
     chk.extra["lines_available"] = len(targets)
